@@ -8,6 +8,7 @@ import (
 	"reflect"
 	"runtime"
 	"strconv"
+	"sync"
 	"sync/atomic"
 	"time"
 	"verif/internal/yrun"
@@ -78,6 +79,7 @@ type engine struct {
 	// many): each execution adds 1000 + f(x) to the script variable Acc
 	progs  []*prog
 	accSum int
+	guards sync.Map
 }
 
 // prog is a compiled program calling one callable with fixed arguments.
@@ -136,6 +138,10 @@ func newEngine(x excl, checkAll bool) *engine {
 		"Block": reflect.ValueOf(e.hostBlock),
 		"Mark":  reflect.ValueOf(e.hostMark),
 		"Keep":  reflect.ValueOf(e.hostKeep),
+		// guards of the funcguard definitions: Acquire fails when the guard is
+		// held, Release of a free guard does nothing
+		"Acquire": reflect.ValueOf(func(n int) bool { _, held := e.guards.LoadOrStore(n, true); return !held }),
+		"Release": reflect.ValueOf(func(n int) { e.guards.Delete(n) }),
 	}})
 	if err != nil {
 		panic(err)
@@ -588,6 +594,15 @@ func (e *engine) define(a *Action) *failure {
 	switch a.Kind {
 	case "func":
 		srcs = []string{fmt.Sprintf("func F%d(x int) int { return x*%d + %d }", n, A, B)}
+		c := mkc(fmt.Sprintf("F%d", n))
+		c.ident = true
+		c.fn = func(x int) int { return x*A + B }
+		cs = append(cs, c)
+	case "funcguard":
+		// a function guarded by a host lock which a deferred host call releases:
+		// the release is registered first, so that a cancellation at any
+		// operation of the function leaves the guard free once the frame ends
+		srcs = []string{fmt.Sprintf("func F%d(x int) int {\n\tdefer hostc10.Release(%d)\n\tif !hostc10.Acquire(%d) {\n\t\treturn -777777\n\t}\n\ts := 0\n\tfor i := 0; i < 3; i++ {\n\t\ts += x\n\t}\n\treturn s/3*%d + %d\n}", n, n, n, A, B)}
 		c := mkc(fmt.Sprintf("F%d", n))
 		c.ident = true
 		c.fn = func(x int) int { return x*A + B }
